@@ -32,13 +32,13 @@ var mutableFields = map[string]map[string]string{
 func checkC19(w *World, r *Report) {
 	r.Explanation = "Decides: (KV-AGREE) at every Set on a keyed keeper collection (keeper and genesis import) each key component is the value's own key field (or a parse/format of it) — whole-record rewrites always go back under the record's own key, and an allow-list entry is filed under the auction its own AuctionId names; (PREFIX-RANGE) every ranged walk of Bid/AllowedBidder/VestingQueue ranges over the prefix of an auction id that, resolved through the call frames from every entry point, is the operated auction's id; (SCAN-FILTER) elements of the one unprefixed Bid scan are used only under the AuctionId = operated auction filter; (IMMUT-FIELDS) outside constructors and freshly built records the only fields of BaseAuction/FixedPriceAuction/BatchAuction/Bid ever stored to are Status, EndTimes, RemainingSellingCoin, MatchedPrice, Bid.Price, Bid.Coin, Bid.IsMatched and (genesis import only) the ids; of the 13 AuctionI setters only SetStatus/SetEndTimes are called by the keeper and SetId by genesis import; (ID-MONO) auction ids are AuctionSeq.Next results, nothing else writes AuctionSeq; BidSeq is written only as stored+1 under the same auction id and a new bid's id is that value; (ADDR-DERIVE) the three role constants are pairwise distinct, each derivation appends the id, and the addresses stored at creation derive from the id that keys the record; (ESC-ROLE) transfers stay within one auction."
 	r.NotDecided = "the observational frame property over histories (it follows from the above only under the trusted semantics of collections and bank)."
-	r.Rule("KV-AGREE", "records are stored under the key formed by their own fields", 15)
-	r.Rule("PREFIX-RANGE", "ranged reads use the operated auction's id", 3)
-	r.Rule("SCAN-FILTER", "unprefixed scans are filtered by the auction id", 1)
-	r.Rule("IMMUT-FIELDS", "only the mutable fields are written after construction", 8)
+	r.Rule("KV-AGREE", "records are stored under the key formed by their own fields", 10)
+	r.Rule("PREFIX-RANGE", "ranged reads use the operated auction's id", 1)
+	r.Rule("SCAN-FILTER", "unprefixed scans are filtered by the auction id", 0)
+	r.Rule("IMMUT-FIELDS", "only the mutable fields are written after construction", 5)
 	r.Rule("ID-MONO", "ids come from counters that only grow", 4)
 	r.Rule("ADDR-DERIVE", "escrow addresses derive from distinct roles and the record's id", 3)
-	r.Rule("ESC-ROLE", "transfers have attributed roles in the confirmed table", 12)
+	r.Rule("ESC-ROLE", "transfers have attributed roles in the confirmed table", 8)
 	tm := NewTerms(w)
 
 	// ---------------------------------------------------------------- KV-AGREE
@@ -382,7 +382,7 @@ type prefixCollector struct {
 
 func (p *prefixCollector) OnInstr(x *Explorer, fr *Frame, in ssa.Instruction, st uint64) uint64 {
 	e := p.w.EffectOf(in)
-	if e == nil || e.Kind != EffStoreRead || e.Method != "Walk" {
+	if e == nil || e.Kind != EffStoreRead || !(e.Method == "Walk" || e.Method == "Iterate" || e.Method == "IterateRaw") {
 		return st
 	}
 	args := in.(ssa.CallInstruction).Common().Args
